@@ -341,6 +341,10 @@ fn source_case(cfg: Cfg, seeded: bool, fault: &'static str) -> Box<dyn Case> {
             if !rng_derived {
                 continue;
             }
+            if !run.validated && (name == "r" || name == "s") {
+                // not readable exactly when the proof is not the reference protocol's (C02 / C19)
+                continue;
+            }
             res.validated += 1;
             *res.outcome_counter("nonce-sources-checked") += 1;
             if !handed.contains(&v.to_bytes()) {
